@@ -6,14 +6,15 @@ Open Scope R_scope.
 
 Definition Rgtb (x y : R) : bool := if Rlt_dec y x then true else false.
 Definition Rltb (x y : R) : bool := if Rlt_dec x y then true else false.
+Definition Reqb (x y : R) : bool := if Req_EM_T x y then true else false.
 
 Definition Num_R : Num := {|
   T := R; add := Rplus; sub := Rminus; mul := Rmult; div := Rdiv;
-  nabs := Rabs; nsqrt := sqrt; gtb := Rgtb; ltb := Rltb;
+  nabs := Rabs; nsqrt := sqrt; gtb := Rgtb; ltb := Rltb; eqb := Reqb;
   zero := 0; one := 1; two := 2; half := / 2
 |}.
 
-Ltac numR := cbv beta iota delta [Num_R T add sub mul div nabs nsqrt gtb ltb zero one two half].
+Ltac numR := cbv beta iota delta [Num_R T add sub mul div nabs nsqrt gtb ltb eqb zero one two half].
 
 Lemma Rgtb_true (x y : R) : Rgtb x y = true <-> y < x.
 Proof. unfold Rgtb. destruct (Rlt_dec y x); split; intros; try lra; try discriminate; reflexivity. Qed.
@@ -255,3 +256,147 @@ Lemma exit_early_brpls_iff (rs : list R) :
 Proof.
   unfold exit_early_brpls, count_neg, count_pos; numR. rewrite orb_true_iff, !Nat.ltb_lt. tauto.
 Qed.
+
+(* ---- default / derived parameters ---- *)
+
+(* max(abs(fit)) as a function of the fit *)
+Fixpoint max_abs (l : list R) : R :=
+  match l with nil => 0 | x :: t => Rmax (Rabs x) (max_abs t) end.
+
+Lemma max_abs_nonneg l : 0 <= max_abs l.
+Proof. induction l as [|x t IH]; cbn [max_abs]; [lra|]. pose proof (Rmax_r (Rabs x) (max_abs t)). lra. Qed.
+
+Lemma max_abs_ge l x : In x l -> Rabs x <= max_abs l.
+Proof.
+  induction l as [|y t IH]; cbn [max_abs In]; [tauto|]. intros [->|H].
+  - apply Rmax_l.
+  - pose proof (Rmax_r (Rabs y) (max_abs t)). specialize (IH H). lra.
+Qed.
+
+Lemma max_abs_zero_iff l : max_abs l = 0 <-> Forall (fun x => x = 0) l.
+Proof.
+  induction l as [|x t IH]; cbn [max_abs].
+  - split; [constructor|reflexivity].
+  - split.
+    + intros H. pose proof (Rmax_l (Rabs x) (max_abs t)). pose proof (Rmax_r (Rabs x) (max_abs t)).
+      pose proof (Rabs_pos x). pose proof (max_abs_nonneg t).
+      constructor.
+      * destruct (Req_dec x 0) as [E|E]; [exact E|]. pose proof (Rabs_pos_lt x E). lra.
+      * apply IH. lra.
+    + intros H. inversion H as [|? ? Hx Ht]; subst. apply IH in Ht. rewrite Ht, Rabs_R0.
+      unfold Rmax. destruct (Rle_dec 0 0); reflexivity.
+Qed.
+
+Lemma eps_default_eq (c m : R) : eps_default Num_R c m = (c * m) * (c * m).
+Proof. unfold eps_default; numR. ring. Qed.
+
+Lemma eps_default_nonneg (c m : R) : 0 <= eps_default Num_R c m.
+Proof. rewrite eps_default_eq. nra. Qed.
+
+Lemma eps_default_pos_iff (c m : R) : 0 < c -> (0 < eps_default Num_R c m <-> m <> 0).
+Proof.
+  intros Hc. rewrite eps_default_eq. split.
+  - intros H E. subst m. nra.
+  - intros H. assert (c * m <> 0) by nra. nra.
+Qed.
+
+(* the default eps is strictly positive exactly when the fit is not identically zero ... *)
+Lemma eps_default_fit_pos_iff (c : R) (fit : list R) : 0 < c ->
+  (0 < eps_default Num_R c (max_abs fit) <-> exists x, In x fit /\ x <> 0).
+Proof.
+  intros Hc. rewrite (eps_default_pos_iff c _ Hc). split.
+  - intros H. destruct (Exists_dec (fun x => x <> 0) fit) as [E|E].
+    + intros x. destruct (Req_EM_T x 0); [right; tauto|left; assumption].
+    + apply Exists_exists in E. exact E.
+    + exfalso. apply H. apply max_abs_zero_iff. apply Forall_forall. intros x Hx.
+      destruct (Req_dec x 0) as [E0|E0]; [exact E0|]. exfalso. apply E. apply Exists_exists. exists x. tauto.
+  - intros (x & Hx & Hne) E. apply max_abs_zero_iff in E. rewrite Forall_forall in E. apply Hne, E, Hx.
+Qed.
+
+(* ... and for an all-zero fit it is exactly 0, so the floor _MIN_FLOAT is what enters the rule *)
+Lemma eps_default_all_zero (c : R) (fit : list R) :
+  Forall (fun x => x = 0) fit -> eps_default Num_R c (max_abs fit) = 0.
+Proof. intros H. apply max_abs_zero_iff in H. rewrite H, eps_default_eq. numR. ring. Qed.
+
+Lemma eps_floor_spec (minf e : R) : eps_floor Num_R minf e = Rmax e minf.
+Proof.
+  unfold eps_floor; numR. unfold Rmax. destruct (Rgtb minf e) eqn:H.
+  - apply Rgtb_true in H. destruct (Rle_dec e minf); lra.
+  - apply Rgtb_false in H. destruct (Rle_dec e minf); lra.
+Qed.
+
+Lemma quantile_w_le (q eps r : R) : 0 < q < 1 -> 0 < eps -> quantile_w Num_R q eps r <= 1 / sqrt eps.
+Proof.
+  intros Hq He. unfold quantile_w; numR.
+  assert (Hs : 0 < sqrt eps) by (apply sqrt_lt_R0; exact He).
+  assert (Hs2 : sqrt eps <= sqrt (r * r + eps)) by (apply sqrt_le_1_alt; nra).
+  apply div_le_div; try lra. destruct (Rgtb r 0); nra.
+Qed.
+
+(* the rule as coded, for EVERY choice of eps (None, or any explicit value, even <= 0): strictly
+   positive and bounded, because the effective eps is at least _MIN_FLOAT *)
+Lemma quantile_full_range (c minf q m : R) (eps : option R) (r : R) : 0 < q < 1 -> 0 < minf ->
+  0 < quantile_full_w Num_R c minf q m eps r <= 1 / sqrt minf.
+Proof.
+  intros Hq Hm. unfold quantile_full_w. rewrite eps_floor_spec.
+  set (e := eps_choice Num_R c m eps).
+  assert (He : minf <= Rmax e minf) by apply Rmax_r.
+  split; [apply quantile_pos; lra|].
+  eapply Rle_trans; [apply quantile_w_le; lra|].
+  assert (0 < sqrt minf) by (apply sqrt_lt_R0; exact Hm).
+  assert (sqrt minf <= sqrt (Rmax e minf)) by (apply sqrt_le_1_alt; exact He).
+  apply div_le_div; lra.
+Qed.
+
+(* with eps = None and a fit that is not identically zero the rule is the DOCUMENTED one,
+   eps = (1e-6 * max(abs(fit)))**2, as soon as that value is not below the floor ... *)
+Lemma quantile_default_documented (c minf q : R) (fit : list R) (r : R) :
+  minf <= (c * max_abs fit) * (c * max_abs fit) ->
+  quantile_full_w Num_R c minf q (max_abs fit) None r
+  = quantile_w Num_R q ((c * max_abs fit) * (c * max_abs fit)) r.
+Proof.
+  intros H. unfold quantile_full_w. rewrite eps_floor_spec. cbn [eps_choice]. rewrite eps_default_eq.
+  f_equal. unfold Rmax. destruct (Rle_dec _ _); lra.
+Qed.
+
+(* ... and for an all-zero fit it is the rule with eps = _MIN_FLOAT *)
+Lemma quantile_default_zero_fit (c minf q : R) (fit : list R) (r : R) :
+  0 <= minf -> Forall (fun x => x = 0) fit ->
+  quantile_full_w Num_R c minf q (max_abs fit) None r = quantile_w Num_R q minf r.
+Proof.
+  intros Hm H. unfold quantile_full_w. rewrite eps_floor_spec. cbn [eps_choice].
+  rewrite (eps_default_all_zero c fit H). f_equal. unfold Rmax. destruct (Rle_dec _ _); lra.
+Qed.
+
+(* why the reduction must be max(abs(fit)) and not abs(max(fit)): for a fit whose largest-magnitude
+   value is negative the two differ -- here the second is 0 although the fit is not zero *)
+Definition max_list (l : list R) : R :=
+  match l with nil => 0 | x :: t => fold_left Rmax t x end.
+
+Lemma eps_abs_of_max_differs :
+  let fit := (-5) :: 0 :: nil in
+  0 < eps_default Num_R 1 (max_abs fit) /\ eps_default Num_R 1 (Rabs (max_list fit)) = 0.
+Proof.
+  cbv zeta. rewrite !eps_default_eq. cbn [max_abs max_list fold_left].
+  assert (H1 : Rmax (-5) 0 = 0) by (unfold Rmax; destruct (Rle_dec (-5) 0); lra).
+  assert (H2 : Rabs (-5) = 5) by (unfold Rabs; destruct (Rcase_abs (-5)); lra).
+  rewrite H1, H2, !Rabs_R0.
+  assert (H3 : Rmax 0 0 = 0) by (unfold Rmax; destruct (Rle_dec 0 0); lra).
+  assert (H4 : Rmax 5 0 = 5) by (unfold Rmax; destruct (Rle_dec 5 0); lra).
+  rewrite H3, H4. split; lra.
+Qed.
+
+(* _safe_std: a standard deviation (>= 0) protected against 0 is strictly positive, so the
+   hypotheses 0 < std of the antitonicity theorems are met on the code's path *)
+Lemma safe_std_pos (minf std : R) : 0 < minf -> 0 <= std -> 0 < safe_std Num_R minf std.
+Proof.
+  intros Hm Hs. unfold safe_std; numR. unfold Reqb. destruct (Req_EM_T std 0); lra.
+Qed.
+
+Lemma drpls_full_antitone (minf scale std mean r1 r2 : R) : 0 < minf -> 0 < scale -> 0 <= std -> r1 <= r2 ->
+  drpls_full_w Num_R minf scale std mean r2 <= drpls_full_w Num_R minf scale std mean r1.
+Proof. intros. unfold drpls_full_w. apply drpls_antitone; try assumption. apply safe_std_pos; assumption. Qed.
+
+Lemma iarpls_full_antitone (minf scale std r1 r2 : R) : 0 < minf -> 0 < scale -> 0 <= std -> r1 <= r2 ->
+  iarpls_full_w Num_R minf scale std r2 <= iarpls_full_w Num_R minf scale std r1.
+Proof. intros. unfold iarpls_full_w. apply iarpls_antitone; try assumption. apply safe_std_pos; assumption. Qed.
